@@ -72,7 +72,7 @@ type Case struct {
 	PendingRead bool   `json:"pending_read,omitempty"` // a Read is blocked while the bytes arrive
 }
 
-const hangLimit = 5 * time.Second
+const hangLimit = 90 * time.Second
 
 func content(seed uint64, n int) []byte {
 	sm := gen.NewSM(seed)
@@ -800,6 +800,7 @@ func (r *runner) teardown() {
 func (r *runner) malformed() {
 	c := r.c
 	var pend chan struct{}
+	waitPend := func() {}
 	if c.PendingRead && r.conn != nil {
 		pend = make(chan struct{})
 		var psig, pmsg string
@@ -810,7 +811,7 @@ func (r *runner) malformed() {
 				r.conn.Read(buf)
 			})
 		}()
-		defer func() {
+		waitPend = func() {
 			select {
 			case <-pend:
 			case <-time.After(hangLimit):
@@ -820,7 +821,7 @@ func (r *runner) malformed() {
 			if psig != "" {
 				r.fail(psig, "pending Read: %s", pmsg)
 			}
-		}()
+		}
 	}
 	onData := c.TCP && c.BlobOnData
 	if len(c.Blob) > 0 {
@@ -839,6 +840,7 @@ func (r *runner) malformed() {
 		harness.Record("hang:link-eof", c, "the library did not close the TNC link within the limit after EOF")
 		harness.ExitHung()
 	}
+	waitPend() // the link is gone: a Read that was pending returns
 	if r.conn != nil {
 		r.call("Read", func() {
 			buf := make([]byte, max(1, firstOr(c.ReadBufs, 16)))
